@@ -31,7 +31,8 @@ presenting identity.
 Finding keys: ``hit-serves-request-without-call-token`` / ``hit-serves-tampered-call-token`` /
 ``hit-serves-foreign-call-token`` (warm accepts what cold rejects, by variant), ``hit-outlives-call-token-ttl``
 (genuine but expired call token), ``cache-rejects:<variant>``, ``cache-changes-output:<variant>``,
-``cache-changes-rejection:<variant>``, ``foreign-identity-call-state``.
+``cache-changes-rejection:<variant>``, ``foreign-identity-call-state``, ``cache-changes-init`` (a well-formed /init
+refused by a worker because of what its cache holds).
 """
 
 from __future__ import annotations
@@ -51,7 +52,8 @@ ENGINE = "E2-BFS"
 SHARDS = {"quick": 8, "thorough": 16}
 RULE = (
     "BFS over all histories of init/cont(echo|omit|tamper|other[|xid])/tick events for every fleet configuration: quick "
-    "2 workers x capacities {0,1,2}^2, 2 streams (identities AB / AA alternating), depth 5; thorough 2 workers x {0..3}^2, "
+    "2 workers x capacities {0,1,2}^2, 2 streams (identities AB / AA alternating), depth 5, plus 3 streams (ABA / AAB, genuine "
+    "tokens only) on capacities [2,0] and [3,1]; thorough 2 workers x {0..3}^2, "
     "3 streams ABA, 5 variants, depth 5 + 2 workers x {0,1,2}^2 x {AB, AA}, depth 6 + three 3-worker fleets (AB depth 5, "
     "ABA depth 4); states "
     "deduplicated on (token ages, positions, ordered cache contents); one evaluation per transition, non-trivial = "
@@ -130,7 +132,12 @@ class World:
             _, s, w = ev
             r = self.workers[w].init(SUBJECT, self.idents[s], {"limit": 50, "base": 100 * (s + 1)})
             if r.status != 200 or r.cursor is None or r.call is None:
-                self.error = f"init failed: {r.outcome()}"
+                # a well-formed /init must succeed whatever the worker's cache holds: compare with an empty-cache worker
+                cold = oracle_worker().init(SUBJECT, self.idents[s], {"limit": 50, "base": 100 * (s + 1)})
+                if cold.status != 200:
+                    raise HarnessError(f"/init fails on an empty-cache worker too: {cold.outcome()}")
+                self.error = (f"init(stream {s}, worker {w} cap {self.cfg['caps'][w]}) answered {r.outcome()} on a worker whose cache held "
+                              f"{len(self.workers[w].cache._entries)} entries, while an empty-cache worker accepts the same request")
                 return
             self.slots[s] = {"cursor": r.cursor, "call": r.call, "pos": 1, "cursor_t": CLOCK.now, "call_t": CLOCK.now,
                              "cid": call_id_of(r.cursor, self.idents[s])}
@@ -256,7 +263,7 @@ def summary(r: T.Resp) -> tuple[Any, ...]:
 
 def invariant(world: World, hist: tuple[Any, ...]) -> tuple[str, str] | None:
     if world.error:
-        return ("harness-init-failed", world.error)
+        return ("cache-changes-init", world.error)
     last = world.last
     if last is None:
         return None
@@ -300,6 +307,9 @@ def configs(ctx: Ctx) -> list[dict[str, Any]]:
         for n, caps in enumerate(itertools.product((0, 1, 2), repeat=2)):
             # alternate two streams of distinct identities / of one identity (the latter lets `other` pass the AAD)
             out.append({"caps": list(caps), "idents": "AB" if n % 2 == 0 else "AA", "depth": 5, "variants": base})
+        # three streams on a worker that can hold several entries (entries of different ages side by side), genuine tokens only
+        out.append({"caps": [2, 0], "idents": "ABA", "depth": 5, "variants": ["echo"]})
+        out.append({"caps": [3, 1], "idents": "AAB", "depth": 5, "variants": ["echo"]})
         return out
     for caps in itertools.product((0, 1, 2, 3), repeat=2):  # three streams (A, B, A), all five variants
         out.append({"caps": list(caps), "idents": "ABA", "depth": 5, "variants": base + ["xid"]})
